@@ -119,7 +119,7 @@ def main(argv=None) -> int:
             broken.append({"kind": "correspondence", "op": op.name, "what": f"the model this op runs does not build ({', '.join(bad)}): model and implementation could not be compared"})
             continue
         res = engine.coq_mismatches(op.imports, op.fn, op.in_ty, [(c["coq"], c["expected"]) for c in cases],
-                                    f"{pid}_{op.name}".replace(".", "_"))
+                                    f"{pid}_{op.name}".replace(".", "_"), per_file=getattr(op, "cases_per_file", None))
         corr[op.name] = {"cases": len(cases), "mismatches": len(res["mismatch"]), "errors": len(res["errors"]),
                          "distribution": op.distribution(cases) if hasattr(op, "distribution") else None}
         if res["errors"]:
